@@ -1396,6 +1396,109 @@ def gen_footprint(mods):
     return "\n".join(lines), dict(shared_writes=shared, param_mutations=params)
 
 
+EXPECTED_COMMAND_METHODS = {
+    "__init__": ("self, opcode, dataout_alloclen, datain_alloclen", """
+SCSICommand.init_cdb(opcode)
+self.dataout = bytearray(dataout_alloclen)
+self.datain = bytearray(datain_alloclen)
+self.result = {}
+self.page_code = None
+self.opcode = opcode
+"""),
+    "__repr__": ("self", "return self.__class__.__name__"),
+    "print_cdb": ("self", """
+for b in self._cdb:
+    print("0x%02X " % b)
+"""),
+    "marshall_cdb": ("cls, cdb", """
+result = cls.init_cdb(cdb["opcode"])
+encode_dict(cdb, cls._cdb_bits, result)
+return result
+"""),
+    "unmarshall_cdb": ("cls, cdb", """
+result = {}
+decode_bits(cdb, cls._cdb_bits, result)
+return result
+"""),
+    "build_cdb": ("self, **kwargs", """
+cdb = {key: kwargs[key] for key in kwargs.keys()}
+return self.marshall_cdb(cdb)
+"""),
+    "unmarshall": ("self, **kwargs", """
+try:
+    if getattr(self, "unmarshall_datain"):
+        self.result = self.unmarshall_datain(self.datain, **kwargs)
+except AttributeError:
+    raise NotImplementedError("%s has no method to unmarshall datain data" % self)
+"""),
+}
+COMMAND_DECORATORS = {"marshall_cdb": ["classmethod"], "unmarshall_cdb": ["classmethod"], "init_cdb": ["staticmethod"]}
+COMMAND_PROPERTIES = {"result", "cdb", "datain", "dataout", "sense", "raw_sense_data", "pagecode", "opcode", "page_code"}
+
+
+def command_base_inventory(mod):
+    """-> list of everything in class SCSICommand that is not exactly what Model/Command.v models"""
+    from translate import src_of
+    unknown = []
+    cls = next((n for n in mod.tree.body if isinstance(n, ast.ClassDef) and n.name == "SCSICommand"), None)
+    if cls is None:
+        return ["class SCSICommand not found"]
+
+    def norm(args, body):
+        t = ast.parse("def f(%s):\n%s" % (args, "\n".join("    " + ln for ln in body.strip("\n").split("\n"))))
+        return ast.dump(t.body[0].args), [ast.dump(x) for x in t.body[0].body]
+    seen = {}
+    for b in cls.body:
+        if isinstance(b, ast.Expr) and isinstance(b.value, ast.Constant) and isinstance(b.value.value, str):
+            continue
+        if isinstance(b, ast.Assign) or (isinstance(b, ast.AnnAssign) and b.value is not None):
+            v = b.value
+            tgts = b.targets if isinstance(b, ast.Assign) else [b.target]
+            if isinstance(v, ast.Constant) and (v.value is None or isinstance(v.value, (int, str, bool, bytes))) and all(isinstance(t, ast.Name) for t in tgts):
+                continue            # an immutable class-level default
+            if isinstance(v, ast.Dict) and not v.keys and all(isinstance(t, ast.Name) and t.id == "_cdb_bits" for t in tgts):
+                continue            # the empty layout of the base class (never written at run time: Gen/Footprint.v)
+            unknown.append("SCSICommand: class-level object %s" % " ".join(src_of(b, mod.text).split())[:100])
+            continue
+        if not isinstance(b, ast.FunctionDef):
+            unknown.append("SCSICommand: class-level statement %s" % " ".join(src_of(b, mod.text).split())[:100])
+            continue
+        decos = [dotted(d.func if isinstance(d, ast.Call) else d) or "?" for d in b.decorator_list]
+        body = [st for st in b.body if not (isinstance(st, ast.Expr) and isinstance(st.value, ast.Constant) and isinstance(st.value.value, str))]
+        seen[b.name] = seen.get(b.name, 0) + 1
+        if b.name == "init_cdb":
+            if decos != ["staticmethod"]:
+                unknown.append("SCSICommand.init_cdb: decorators %s" % decos)
+            continue                # its range table is regenerated and compared with SAM (C14)
+        if b.name in COMMAND_PROPERTIES and decos == ["property"]:
+            ok = len(body) == 1 and isinstance(body[0], ast.Return) and isinstance(body[0].value, ast.Attribute) and dotted(body[0].value.value) == "self" \
+                and body[0].value.attr.startswith("_")
+            if not ok:
+                unknown.append("SCSICommand.%s (getter): %s" % (b.name, " ".join(src_of(b, mod.text).split())[:100]))
+            continue
+        if b.name in COMMAND_PROPERTIES and len(decos) == 1 and decos[0].endswith(".setter"):
+            ok = len(body) == 1 and isinstance(body[0], ast.Assign) and len(body[0].targets) == 1 and isinstance(body[0].targets[0], ast.Attribute) \
+                and dotted(body[0].targets[0].value) == "self" and body[0].targets[0].attr.startswith("_") and isinstance(body[0].value, ast.Name) \
+                and [a.arg for a in b.args.args] == ["self", body[0].value.id]
+            if not ok:
+                unknown.append("SCSICommand.%s (setter): %s" % (b.name, " ".join(src_of(b, mod.text).split())[:100]))
+            continue
+        exp = EXPECTED_COMMAND_METHODS.get(b.name)
+        if exp is None:
+            unknown.append("SCSICommand.%s: a member Model/Command.v does not know" % b.name)
+            continue
+        if decos != COMMAND_DECORATORS.get(b.name, []):
+            unknown.append("SCSICommand.%s: decorators %s" % (b.name, decos))
+            continue
+        eargs, ebody = norm(*exp)
+        if ast.dump(b.args) != eargs or [ast.dump(x) for x in body] != ebody:
+            unknown.append("SCSICommand.%s: not the text Model/Command.v was written for: %s" % (b.name, " ".join(src_of(b, mod.text).split())[:110]))
+    for name in EXPECTED_COMMAND_METHODS:
+        if name not in seen:
+            unknown.append("SCSICommand.%s: missing" % name)
+    return unknown
+
+
 def gen_misc(mods):
     from translate import HEADER, coq_str, const_int, src_of
     lines = [HEADER.format(src="scsi_command.py (init_cdb), scsi.py (attach table), iscsi_device.py (status dispatch)",
@@ -1404,6 +1507,7 @@ def gen_misc(mods):
     unknown = []
     # ---- SCSICommand.init_cdb: if lo <= opcode.value <= hi: cdb = bytearray(n) | raise ... else: raise
     mod = next(m for m in mods if m.stem == "scsi_command")
+    mod_cmd = mod
     fn = None
     for node in ast.walk(mod.tree):
         if isinstance(node, ast.FunctionDef) and node.name == "init_cdb":
@@ -1557,6 +1661,11 @@ def gen_misc(mods):
     lines += slines
     unknown += sunk
     info["sense_class"] = sinfo
+    # ---- class SCSICommand: its codec methods are hand-modelled (Model/Command.v); they must have exactly the text the model was written
+    # ---- for, and the class nothing else that could carry state from one command to another (anything else is reported as unknown)
+    cb_unknown = command_base_inventory(mod_cmd)
+    lines.append("Definition command_base_unknown : list string := [%s].\n" % "; ".join(coq_str(u[:150]) for u in cb_unknown))
+    info["command_base_unknown"] = cb_unknown
     lines.append("Definition unknown_misc : list string := [" + "; ".join(coq_str(u) for u in unknown) + "].\n")
     info["unknown"] = unknown
     return "\n".join(lines), info
